@@ -405,11 +405,20 @@ def r12_1_field_coverage(ctx: Ctx, rule: str = "R12.1") -> None:
             for fld in fields:
                 inst = f"{rel}:{fn}:{c.name}.{fld}"
                 ok_all = True
+                used = 0
                 for i, p in arms:
+                    v = p.value
+                    # a degenerate constant answer (`literal(False)` for an empty container) needs no field; that the
+                    # constant is the right one is decided by the exact rules (R12.7)
+                    if isinstance(v, ast.Constant) or (isinstance(v, ast.Call) and call_attr(v) == "literal" and len(v.args) == 1 and isinstance(v.args[0], ast.Constant)):
+                        if any(s.kind == "cond" for s in p.steps[i:]):
+                            continue
                     sl = backward_slice(p, [p.value], control=True, start=i)
                     if not (sl.reads(subj, fld)):
                         ok_all = False
-                if ok_all:
+                    else:
+                        used += 1
+                if ok_all and used:
                     run.ok(rule, inst)
                 else:
                     run.fail(rule, inst, f"{fn} ({rel.split('/')[0]}) does not use field `{fld}` of {c.name}: two different expressions would be translated alike", fi=f, node=arms[0][1].node)
@@ -596,7 +605,7 @@ def r12_4_operand_roles(ctx: Ctx, rule: str = "R12.4") -> None:
     _r12_4(ctx, rule)
     st = ctx.run.rules[rule]
     fs = ctx.m.func(SQL_ENGINE, "Engine.convert_predicate")
-    for inst, what in (("sql:range-bounds", "BETWEEN start AND stop - 1"), ("sql:range-step", "item % step == start % step for stepped ranges"), ("sql:sequence", "IN (...) for sequences")):
+    for inst, what in (("sql:range-item", "a test of the converted item for ranges"), ("sql:sequence", "IN (...) for sequences")):
         if inst not in st.nontrivial:
             ctx.run.fail(rule, inst, f"no path of the SQL membership translation produces {what}", fi=fs)
 
@@ -678,43 +687,13 @@ def _r12_4(ctx: Ctx, rule: str) -> None:
                 seen.add(inst)
                 run.fail(rule, inst, f"SQL membership in a sequence is `{src(v)[:70]}`: expected <item>.in_([every converted item])", fi=fs, node=p.node)
         elif ir >= 0:
-            caps2 = pattern_captures(p.steps[ir].node.pattern)  # type: ignore[union-attr]
-
-            def cap(path_tail):
-                return next((n for n, a in caps2.items() if a[-1:] == (path_tail,)), None)
-
-            start_v, stop_v, step_v = cap("start"), cap("stop"), cap("step")
-            if not (start_v and stop_v and step_v):
-                raise AnalysisError("the SQL range arm no longer destructures range(start, stop, step)")
-            betw = [c for c in ast.walk(ast.Module(body=[ast.Expr(e) for e in sl.exprs if isinstance(e, ast.expr)], type_ignores=[])) if isinstance(c, ast.Call) and call_attr(c) == "between"]
-            inst = "sql:range-bounds"
-            if betw:
-                b = betw[0]
-                hi = b.args[2] if len(b.args) > 2 else None
-                hi_e = hi.args[0] if isinstance(hi, ast.Call) and hi.args else hi
-                hb = resolve_name(p, hi_e.id) if isinstance(hi_e, ast.Name) else hi_e
-                if not isinstance(hb, ast.AST):
-                    hb = hi_e
-                lo = b.args[1] if len(b.args) > 1 else None
-                lo_e = lo.args[0] if isinstance(lo, ast.Call) and lo.args else lo
-                ok = lo_e is not None and src(lo_e) == start_v and hb is not None and src(hb) in (f"{stop_v} - 1", f"{stop_v}-1")
-                ok = ok and item_v in src(resolve_name(p, b.args[0].id) if isinstance(b.args[0], ast.Name) else b.args[0])
-                if ok:
-                    run.ok(rule, inst)
-                elif inst not in seen:
-                    seen.add(inst)
-                    run.fail(rule, inst, f"the SQL range test is `{src(b)[:80]}`: bounds must be start and stop - 1 (BETWEEN is inclusive)", fi=fs, node=p.node)
-            facts = path_facts(p)
-            stepped = any(fct.kind == "EQ" and not fct.polarity and set(fct.args) == {"1", step_v} for fct in facts)
-            if stepped:
-                inst = "sql:range-step"
-                mods = [n for e in sl.exprs for n in ast.walk(e) if isinstance(n, ast.BinOp) and isinstance(n.op, ast.Mod)]
-                ok = any(step_v in src(n.right) and item_v in src(resolve_name(p, n.left.id) if isinstance(n.left, ast.Name) else n.left) for n in mods) and any(src(n) == f"{start_v} % {step_v}" for n in mods)
-                if ok:
-                    run.ok(rule, inst)
-                elif inst not in seen:
-                    seen.add(inst)
-                    run.fail(rule, inst, "a stepped range is not translated as item % step == start % step (plus the bounds)", fi=fs, node=p.node)
+            # the range translation is decided exactly (R12.7, sa/rules/rangesql.py); here only: it is about the item
+            inst = "sql:range-item"
+            if item_ok or isinstance(v, ast.Call) and call_attr(v) == "literal":
+                run.ok(rule, inst)
+            elif inst not in seen:
+                seen.add(inst)
+                run.fail(rule, inst, f"the SQL range test `{src(v)[:70]}` does not involve the converted item", fi=fs, node=p.node)
 
 
 def r12_6_factories(ctx: Ctx, rule: str = "R12.6") -> None:
